@@ -411,12 +411,12 @@ func (e *Env) Observe() M {
 	cnt["sess"] = u64s(e.vk.Session.GetCount(ctx))
 	st["cnt"] = cnt
 
-	// ----- params (through the keepers' getters) -----
-	pp := e.vk.Provider.GetParams(ctx)
-	np := e.vk.Node.GetParams(ctx)
-	sp := e.vk.Subscription.GetParams(ctx)
-	xp := e.vk.Session.GetParams(ctx)
-	wp := e.wk.GetParams(ctx)
+	// ----- params (straight from the x/params subspaces) -----
+	pp := e.provParams(ctx)
+	np := e.nodeParams(ctx)
+	sp := e.subParams(ctx)
+	xp := e.sessParams(ctx)
+	wp := e.swapParams(ctx)
 	st["par"] = M{
 		"prov_deposit": coinL(pp.Deposit), "prov_share": zs(decRaw(pp.StakingShare)),
 		"node_deposit": coinL(np.Deposit), "node_active": i64s(int64(np.ActiveDuration)),
